@@ -45,7 +45,9 @@ type hcase struct {
 }
 
 // ReaderKinds are the ways the same bytes are presented to Parse.
-var ReaderKinds = []string{"bytes", "bufio", "bufio16", "onebyte", "dataerr", "half"}
+// ("advanced": a seekable reader that has already been read up to where the header starts: the header is not at offset 0
+// of what lies underneath; "section": a window into a larger object)
+var ReaderKinds = []string{"bytes", "bufio", "bufio16", "onebyte", "dataerr", "half", "advanced", "section"}
 
 func mkReader(kind string, b []byte) io.Reader {
 	switch kind {
@@ -61,6 +63,15 @@ func mkReader(kind string, b []byte) io.Reader {
 		return iotest.DataErrReader(bytes.NewReader(b))
 	case "half":
 		return iotest.HalfReader(bytes.NewReader(b))
+	case "advanced":
+		junk := []byte("what came before the age file: 41 bytes..\n")
+		r := bytes.NewReader(append(append([]byte{}, junk...), b...))
+		r.Seek(int64(len(junk)), io.SeekStart)
+		return r
+	case "section":
+		junk := []byte("-> front matter 0123456789\n")
+		all := append(append(append([]byte{}, junk...), b...), []byte("behind the window")...)
+		return io.NewSectionReader(bytes.NewReader(all), int64(len(junk)), int64(len(b)))
 	}
 	panic(kind)
 }
